@@ -234,7 +234,7 @@ claim("C13",
       "reported - with start <= end <= number of characters of the source and the given source id (SU3a-d, helpers inlined); compose_location reports "
       "exactly the line/column of span.start and span.end (SU1a-c); the parser's map_span yields the BYTE range of the tokens (SU2m). The linking "
       "obligation 'a byte offset inside the source is a character offset inside the source' (SU2) fails: recorded finding (panic / misplaced caret on "
-      "non-ASCII sources). a span that ErrorMessages::composed hands on names a source of the tree (compose_errors CP4); the end-of-input span and every span of at least one token has start <= end (span_units SU2o); a number literal beyond the range of f64 never leaves the lexer as a literal (lex_numbers NB2), so its rejection is a LEXER error, located in character units by convert_lexer_error; with several files, every file is parsed with the id registered for its own path and the errors of the project are those of the files, in file order, uncompared (parse_files PF1-2: the loop of parser::parse); FRAME (syntactic, whole tree): the functions that MAKE a span - a `Span { .. }` value, Span::new, span arithmetic - are the lexer's, the parser's and span.rs's, each with its contract or reason; everything else copies spans (span_frame SF.maker rows: a new maker needs a contract of its own); lowering keeps the span of every expression (lower_expr LS1), which is what errors of the SQL back end are located with. NOT proved: rendering, multi-file ids.",
+      "non-ASCII sources). a span that ErrorMessages::composed hands on names a source of the tree (compose_errors CP4); the end-of-input span and every span of at least one token has start <= end (span_units SU2o); a number literal beyond the range of f64 never leaves the lexer as a literal (lex_numbers NB2), so its rejection is a LEXER error, located in character units by convert_lexer_error; with several files, every file is parsed with the id registered for its own path and the errors of the project are those of the files, in file order, uncompared (parse_files PF1-2: the loop of parser::parse; PS2-3: parse_source runs the parser under the same source id as the lexer and returns the lexer's errors followed by the parser's); FRAME (syntactic, whole tree): the functions that MAKE a span - a `Span { .. }` value, Span::new, span arithmetic - are the lexer's, the parser's and span.rs's, each with its contract or reason; everything else copies spans (span_frame SF.maker rows: a new maker needs a contract of its own); lowering keeps the span of every expression (lower_expr LS1), which is what errors of the SQL back end are located with. NOT proved: rendering, multi-file ids.",
       "UTF-8 text model (char_len <= byte_len, monotone prefix counts), chumsky's span contract, ariadne's get_offset_line and error constructors are "
       "assumed by contract.")
 
